@@ -4,4 +4,4 @@
 From Coq Require Import ExtrOcamlBasic ExtrOcamlString.
 From Spil Require Import Base.Tree Conf.Conf Conf.Routing Driver.Dispatch Driver.DispatchFs.
 Extraction Language OCaml.
-Separate Extraction DispatchFs.run_fs Dispatch.run Conf.load_tree Routing.parse_routing Tree.tree.
+Separate Extraction DispatchFs.run_top Dispatch.run Conf.load_tree Routing.parse_routing Tree.tree.
